@@ -134,7 +134,7 @@ def run(ctx):
 
     # ---------------------------------------------------------------- R3 who sums over what
     n3 = 0
-    for fn in fb.find(pred=lambda f: f.has_cfg() and not f.lambda_ and f.name == "value" and
+    for fn in fb.find(pred=lambda f: f.has_cfg() and not f.lambda_ and f.name in ("value", "reset") and
                       re.match(r"^babylon::(GenericsConcurrentAdder<.*>|ConcurrentSummer|internal::ConcurrentComparer<.*>)$", f.record or "")):
         calls = [ev for _, ev in fn.all_events() if ev["e"] == "call"]
         if not any(c.get("name") in ("for_each", "for_each_alive") for c in calls):
@@ -143,9 +143,9 @@ def run(ctx):
         ok = any(c.get("name") == "for_each" and strip_cast(c.get("this", {})).get("n") == "_storage" for c in calls) and \
             not any(c.get("name") == "for_each_alive" for c in calls)
         ctx.ob("C19.R3a", L.short(fn) + fn.sig, ok, fn.loc,
-               "an aggregate must sum over every slot ever used (for_each): contributions of exited threads live in slots "
-               "that for_each_alive skips")
-    ctx.floor("C19.R3a", n3, 4, "aggregate value() functions")
+               "an aggregate (and the reset that starts a new count) must walk every slot ever used (for_each): contributions of "
+               "exited threads live in slots that for_each_alive skips", site="%s::%s@every-slot" % (fn.record, fn.name))
+    ctx.floor("C19.R3a", n3, 6, "aggregate value() / reset() functions that walk the slots")
     n3 = 0
     for fn in fb.find(pred=lambda f: (ETL.match(f.record or "") or CTL.match(f.record or "")) and f.has_cfg() and
                       f.name in ("for_each", "for_each_alive") and not f.lambda_):
